@@ -50,6 +50,26 @@ pub const ROOTS: &[Root] = &[
     Root { name: "knights-tour", fen: "4k3/8/8/8/8/8/8/N3K2N w - - 0 1", class: 0 },
 ];
 
+/// Positions the engine's FEN reader accepts although they cannot arise in play (pawns on the first and last
+/// ranks, in every combination of colour and side to move). The reference model refuses them, so nothing is judged
+/// about the moves; they only drive the unchecked fast paths (C15).
+pub const ODD_FENS: &[&str] = &[
+    "4k2P/8/8/8/8/8/8/4K3 w - - 0 1",
+    "4k2P/8/8/8/8/8/8/4K3 b - - 0 1",
+    "4k3/8/8/8/8/8/8/p3K3 b - - 0 1",
+    "4k3/8/8/8/8/8/8/p3K3 w - - 0 1",
+    "P3k2P/8/8/8/8/8/8/p2K3p w - - 0 1",
+    "P3k2P/8/8/8/8/8/8/p2K3p b - - 0 1",
+    "2P1k1p1/8/8/8/8/8/8/1p2K1P1 w - - 0 1",
+    "2P1k1p1/8/8/8/8/8/8/1p2K1P1 b - - 0 1",
+    "PPPPkPPP/8/8/8/8/8/8/pppKpppp w - - 0 1",
+    "PPPPkPPP/8/8/8/8/8/8/pppKpppp b - - 0 1",
+    "4k3/P7/8/8/8/8/p7/P3K2p w - - 0 1",
+    "r3k2r/8/8/8/8/8/8/R3K2R w KQkq e6 0 1",
+    "r3k2r/8/8/8/8/8/8/R3K2R b KQkq a3 0 1",
+    "4k3/8/8/8/8/8/8/4K3 w KQkq - 0 1",
+];
+
 /// Groups of positions with the same placement that differ only in side to move, castling rights or
 /// en-passant file: searched back to back they would collide if the hash forgot a feature.
 pub const SIBLINGS: &[&[&str]] = &[
